@@ -57,6 +57,9 @@ func vpH_c06_envnames() {
 		venv[name] = val + "!"
 		verr = Verify(ctx, sig, s, &CommandStepWithInvariants{CommandStep: *step, RepositoryURL: "r"}, WithEnv(venv))
 		vpAssert(verr != nil, "a changed value of the signed pipeline variable is refused, whatever its name")
+		delete(venv, name)
+		verr = Verify(ctx, sig, s, &CommandStepWithInvariants{CommandStep: *step, RepositoryURL: "r"}, WithEnv(venv))
+		vpAssert(verr != nil, "a missing signed pipeline variable is refused, whatever its name and value")
 	}
 }
 
